@@ -110,7 +110,7 @@ def corr(rep: C.Report, tier: str):
                 i = names.index(a)
                 err = np.max(np.abs(ca[i, :, :, i, :, :] - c1[0, :, :, 0, :, :]))
                 rep.count("independence checks")
-                if err > 1e-9 * (np.max(np.abs(c1[:])) + 1):
+                if not err <= 1e-09 * (np.max(np.abs(c1[:])) + 1):
                     rep.violation("block of a particle pair depends on which other particles are present",
                                   {"dir": lines[-1], "pair": [a, a], "max_abs_diff": float(err), "interpolated": gridN != Nst},
                                   finding_key="C14:interpolation-multi-particle" if gridN != Nst else "C14:pair-dependence")
@@ -209,7 +209,7 @@ def _uniform_spacing(rep, tier, base, r):
                 worst = max(worst, float(np.max(np.abs(got - want)) / (np.max(np.abs(want)) + 1e-300)))
         rep.case(key=("interp-uniform", Ns, Nt, bst, breq, npart))
         rep.count("uniform-spacing interpolation comparisons")
-        if worst > 1e-8:
+        if not worst <= 1e-08:
             rep.violation("on a grid with spacing='Uniform' the array interpolated to a smaller grid does not act on low-order distributions "
                           "like the stored operator (on the uniform nodes of the stored size) evaluated at the new grid points",
                           {"spacing": "Uniform", "M": 4, "stored_N": Ns, "target_N": Nt, "stored_basis": bst, "requested_basis": breq,
@@ -247,7 +247,7 @@ def _numeric(rep, tier, base, r):
                 worst = max(worst, float(np.max(np.abs(got - want)) / (np.max(np.abs(want)) + 1e-300)))
         rep.case(key=("interp", Ns, Nt, bst, breq, npart))
         rep.count("interpolation/basis-change comparisons")
-        if worst > 1e-8:
+        if not worst <= 1e-08:
             rep.violation("real interpolation/basis change differs from E*C*T*P assembled from the model's matrices",
                           {"stored_N": Ns, "target_N": Nt, "stored_basis": bst, "requested_basis": breq, "particles": npart,
                            "max_rel_diff": worst}, finding_key="C14:interpolation-multi-particle" if npart > 1 else "C14:interp-numeric")
@@ -281,6 +281,6 @@ def _numeric(rep, tier, base, r):
         a1 = np.einsum("pqjk,jk->pq", blk, v)
         a2 = np.einsum("pqjk,jk->pq", cheb[0, :, :, 0, :, :], c)
         rep.case(key=("action", N))
-        if np.max(np.abs(a1 - a2)) > 1e-9 * np.max(np.abs(a1)):
+        if not np.max(np.abs(a1 - a2)) <= 1e-09 * np.max(np.abs(a1)):
             rep.violation("changing the basis changes the result of applying the collision operator to a distribution",
                           {"N": N, "max_abs_diff": float(np.max(np.abs(a1 - a2)))}, finding_key="C14:basis-action")
